@@ -258,6 +258,7 @@ impl Node {
         Ok(child.clone())
     }
     pub fn contains(&self, other: Option<&Node>) -> bool { other.map_or(false, |o| self.is_inclusive_ancestor_of(o)) }
+    pub fn is_same_node(&self, other: Option<&Node>) -> bool { other.map_or(false, |o| self.id() == o.id()) }
     pub fn is_connected(&self) -> bool { DOCUMENT.with(|d| Node(d.0.clone()).is_inclusive_ancestor_of(self)) }
 }
 
